@@ -1418,7 +1418,7 @@ func TestVerifC15Buffers(t *testing.T) {
 	// 1. raw cores against the model log, census after every op
 	ncases, steps := 400, 120
 	if vThorough() {
-		ncases, steps = 4000, 200
+		ncases, steps = 1500, 200
 	}
 	ncases = vEnvInt("VERIF_POOL_CASES", ncases)
 	for i := 0; i < ncases; i++ {
@@ -1831,26 +1831,28 @@ func poolRunCloseScenario(t *testing.T, cfg poolCloseCfg, rep *vreport, rng *vrn
 		}
 	}
 
-	// what the application cannot reach: sessions still waiting in the accept backlog
+	// what the application cannot reach: sessions still waiting in the accept backlog (collected
+	// again on every poll: a monitor that was in the middle of a dispatch may still add one)
 	var backlog []*UDPSession
-	for {
-		select {
-		case s := <-l.chAccepts:
-			backlog = append(backlog, s)
-			continue
-		default:
-		}
-		break
-	}
 	backlogPtr := map[string]bool{}
-	for _, s := range backlog {
-		backlogPtr[poolPtr(s)] = true
+	collect := func() {
+		for {
+			select {
+			case s := <-l.chAccepts:
+				backlog = append(backlog, s)
+				backlogPtr[poolPtr(s)] = true
+				continue
+			default:
+			}
+			return
+		}
 	}
 
 	// goroutines: wait (generously) until only those of backlog sessions are left
 	deadline := time.Now().Add(grace)
 	var left []poolGor
 	for {
+		collect()
 		left = left[:0]
 		cnt := map[string]int{}
 		for _, g := range poolLibGoroutines() {
@@ -1870,7 +1872,11 @@ func poolRunCloseScenario(t *testing.T, cfg poolCloseCfg, rep *vreport, rng *vrn
 		}
 		time.Sleep(20 * time.Millisecond)
 	}
+	collect()
 	rep.Monitors["close_goroutines"]++
+	if len(left) > 0 {
+		t.Logf("scenario %s: goroutines left after the grace period: %v (backlog sessions %v)", cfg.Name, left, backlogPtr)
+	}
 	leakBacklogG := 0
 	for _, g := range left {
 		if g.entry == "postProcess" && (backlogPtr[g.recv] || (g.recv == "" && leakBacklogG < len(backlog))) {
@@ -1983,7 +1989,7 @@ func TestVerifC15Close(t *testing.T) {
 		} else if rng.chance(30) {
 			c.DS, c.PS = 2, 1
 		}
-		c.Name = fmt.Sprintf("%s/%s/own=%v", point, strings.Join(order, ">"), own)
+		c.Name = fmt.Sprintf("%02d/%s/%s/own=%v", len(scen), point, strings.Join(order, ">"), own)
 		scen = append(scen, c)
 	}
 	if vThorough() {
@@ -2005,15 +2011,15 @@ func TestVerifC15Close(t *testing.T) {
 			add(pt, perms[rng.intn(len(perms))], i%2 == 1)
 		}
 	}
-	for _, c := range scen {
-		poolRunCloseScenario(t, c, rep, rng, pump, grace)
-	}
 	// F14: sessions nobody accepted
 	all := []string{"client", "listener", "transport"}
 	poolRunCloseScenario(t, poolCloseCfg{Name: "backlog/own=true", Point: "backlog", Order: all, Own: true, Clients: 3, Cipher: "none"}, rep, rng, pump, grace)
 	poolRunCloseScenario(t, poolCloseCfg{Name: "backlog/own=false", Point: "backlog", Order: []string{"listener", "client", "transport"}, Own: false, Clients: 2, Cipher: "aes"}, rep, rng, pump, grace)
 	poolRunCloseScenario(t, poolCloseCfg{Name: "dispatch-after-close/own=false", Point: "dispatch-after-close", Order: []string{"client", "transport"}, Own: false, Clients: 2, Cipher: "none"}, rep, rng, pump, grace)
 
+	for _, c := range scen {
+		poolRunCloseScenario(t, c, rep, rng, pump, grace)
+	}
 	// the same with the real scheduler (goroutines only: its queue cannot be inspected)
 	SystemTimedSched = saved
 	poolRunCloseScenario(t, poolCloseCfg{Name: "real-sched/mid-transfer", Point: "mid-transfer", Order: perms[rng.intn(len(perms))], Own: true, Clients: 2, Cipher: "aes", RealSched: true}, rep, rng, nil, grace)
